@@ -22,7 +22,7 @@ defined in two files denotes two symbols of the flattened program; `E` is the ON
 program and every instance's table is `E` restricted to that instance.
 
 Proved: `layout_refines_asm_includes_partial` — for a project whose include tree is free of `.global/.import/.export`
-and whose operand trees are `plain` (`Multi.LocalProject`, the side condition of `layout_refines_asm` for every file
+(operand trees arbitrary — the side condition `plain` is gone since `evaluate` is idempotent, Props/C08Full.lean) (`Multi.LocalProject`, the side condition of `layout_refines_asm` for every file
 of the tree): if `Asm.run` succeeds, there are a flattened program `p` and a table `E` such that `p` is a flattening over
 `E` (every instance's table IS `E` at that instance), `p` is well formed, the output image is address by address the
 `pass2` image of the reference on `p`, and — if no label stands at the cursor 2^32 — `Ref.layout p` is defined, equals
@@ -303,7 +303,7 @@ def localProjectB (fs : Bytes → Option Bytes) : Nat → Bytes → Bytes → Bo
   | 0, _, _ => true
   | fuel + 1, path, data =>
     match parseFile data with
-    | .ok (els, _) => els.all fun el => okInc el && plainEl el &&
+    | .ok (els, _) => els.all fun el => okInc el &&
         match incTarget fs path el with
         | some (p', d') => localProjectB fs fuel p' d'
         | none => true
@@ -317,8 +317,8 @@ theorem localProject_of_B (fs : Bytes → Option Bytes) : ∀ (fuel : Nat) (path
   | succ fuel ih =>
     intro path data h els perr hp el hel
     simp only [localProjectB, hp, List.all_eq_true, Bool.and_eq_true] at h
-    obtain ⟨⟨h1, h2⟩, h3⟩ := h el hel
-    refine ⟨h1, h2, fun p' d' ht => ih p' d' ?_⟩
+    obtain ⟨h1, h3⟩ := h el hel
+    refine ⟨h1, fun p' d' ht => ih p' d' ?_⟩
     rw [ht] at h3
     exact h3
 
